@@ -235,6 +235,41 @@ def make_riscv_at(mode, ibase, hz=True, dcache=None, size=0x3000):
     return RiscvSimulation(state=st, mode=pm)
 
 
+_DECOYS = {}
+
+
+def decoy_riscv_touch():
+    """ANOTHER live RISC-V simulation with other register, memory and program contents is looked at (all its tables) in
+    between the operations on the simulation under test: what a simulation shows and does is its own, whatever else
+    lives - and is used - in the process."""
+    d = _DECOYS.get("rv")
+    _DECOYS["rv_n"] = _DECOYS.get("rv_n", 0) + 1
+    if d is None or _DECOYS["rv_n"] % 64 == 0:
+        # (a FRESH one every now and then; it never finishes: all its registers and two data words keep changing)
+        d = _DECOYS["rv"] = _mk_direct("single", True, None, None)
+        d.load_program(".data\ndq_: .word 0x51525354, 7, 0x80000001\ndh_: .half 0x7172, 3\n.text\nagain_:\n" + "\n".join("addi x%d, x%d, %d" % (r, r, 1000 + 37 * r) for r in range(1, 32)) + "\nsw x5, -8(x0)\nsb x6, -3(x0)\nbeq x0, x0, again_")
+    for _ in range(3):
+        d.step()
+    d.get_register_entries()
+    d.get_data_memory_entries()
+    d.get_instruction_memory_entries()
+    d.state.instruction_memory.get_representation()
+
+
+def decoy_toy_touch():
+    """the same for TOY: another live machine is advanced by one HALF cycle and looked at"""
+    d = _DECOYS.get("toy")
+    if d is None:
+        from architecture_simulator.simulation.toy_simulation import ToySimulation
+
+        d = _DECOYS["toy"] = ToySimulation()
+        d.load_program("top_:\nLDA 0x7F1\nADD 0x7F2\nSUB 0x7F3\nOR 0x7F4\nAND 0x7F5\nXOR 0x7F6\nSTO 0x7F7\nNOT\nINC\nDEC\nNOP\nZRO\nBRZ top_\n")
+    d.single_step()
+    d.get_register_representations()
+    d.get_memory_table_entries()
+    d.get_toy_svg_update_values()
+
+
 def build_instr(d, addr=0):
     """instruction description dict -> real instruction object (constructed directly, no assembler)."""
     from architecture_simulator.isa.riscv.rv32i_instructions import instruction_map
